@@ -1,19 +1,35 @@
 /- GENERATED: instance obligations for one logic, discharged by kernel evaluation.
-   `X ⊆ known`: every failing row is a committed known finding (Ptx/Gen/Known.lean). -/
+   `S` = the logic with its DOCUMENTED tables (Ptx/Sem/Spec.lean); rules, closure, trunk and frames
+   are what the translator read off the code.  `X ⊆ known`: every failing row is a committed
+   known finding (Ptx/Gen/Known.lean, generated from known_findings.json). -/
 import Ptx.Gen.L_S4GO
 import Ptx.Gen.Known
 import Ptx.Sem.Subset
+import Ptx.Props.C01
+import Ptx.Gen.L_GO
 namespace Ptx.Gen.Obl.S4GO
 open Ptx
 
-theorem tables_total : Gen.S4GO.tablesTotalB = true := by decide +kernel
-theorem rules_exact : subsetB Gen.S4GO.badRules (Known.badRules "S4GO") = true := by decide +kernel
-theorem rules_sound : subsetB Gen.S4GO.unsoundRules (Known.unsoundRules "S4GO") = true := by decide +kernel
-theorem rules_total : subsetB Gen.S4GO.missingRules (Known.missingRules "S4GO") = true := by decide +kernel
-theorem rules_local : Gen.S4GO.nonLocalRules = [] := by decide +kernel
-theorem closure_total : Gen.S4GO.closureTotalB = true := by decide +kernel
-theorem closure_exact : subsetB Gen.S4GO.badClosure (Known.badClosure "S4GO") = true := by decide +kernel
-theorem read_total : Gen.S4GO.readTotalB = true := by decide +kernel
-theorem read_exact : subsetB Gen.S4GO.badRead (Known.badRead "S4GO") = true := by decide +kernel
+/-- a modal / first-order extension has exactly the truth-functional tables of its base (GO) -/
+theorem base_tables : Gen.S4GO.tables.sameTF Gen.GO.tables = true := by decide +kernel
+theorem spec_defined : Gen.S4GO.specDefinedB = true := by decide +kernel
+theorem tables_spec : subsetB Gen.S4GO.tableDiff (Known.tableDiff "S4GO") = true := by decide +kernel
+theorem defined_ops : Gen.S4GO.tables.definedOpsBad = [] := by decide +kernel
+theorem tables_total : Gen.S4GO.sem.tablesTotalB = true := by decide +kernel
+theorem rules_exact : subsetB Gen.S4GO.sem.badRules (Known.badRules "S4GO") = true := by decide +kernel
+theorem rules_sound : subsetB Gen.S4GO.sem.unsoundRules (Known.unsoundRules "S4GO") = true := by decide +kernel
+theorem rules_total : subsetB Gen.S4GO.sem.missingRules (Known.missingRules "S4GO") = true := by decide +kernel
+theorem rules_local : Gen.S4GO.sem.nonLocalRules = [] := by decide +kernel
+theorem closure_total : Gen.S4GO.sem.closureTotalB = true := by decide +kernel
+theorem closure_exact : subsetB Gen.S4GO.sem.badClosure (Known.badClosure "S4GO") = true := by decide +kernel
+theorem read_total : Gen.S4GO.sem.readTotalB = true := by decide +kernel
+theorem read_exact : subsetB Gen.S4GO.sem.badRead (Known.badRead "S4GO") = true := by decide +kernel
+theorem sound_core : Gen.S4GO.sem.soundCoreB = true := by decide +kernel
+
+/-- C01 for this logic: a closed tableau reached by any legal derivation has no countermodel. -/
+theorem c01_valid_sound (arg : Argument) (t : Tableau)
+    (hd : Deriv Gen.S4GO.sem.soundPart.noQuantPart (trunk Gen.S4GO.sem arg) t) (hclosed : t.allClosed = true)
+    (M : Struct) (hM : M.Interp Gen.S4GO.sem) (e : Env M.D) (w0 : M.W) : ¬ Countermodel Gen.S4GO.sem M e w0 arg :=
+  Props.C01.C01_valid_sound_partial Gen.S4GO.sem sound_core arg t hd hclosed M hM e w0
 
 end Ptx.Gen.Obl.S4GO
